@@ -36,7 +36,7 @@ def gen_case(rng, n_max=5, n_min=2, n=None):
     else:
         order = []
     return {"cands": cands, "ballots": [list(b) if b is not None else None for b in prof], "winner": winner,
-            "asn": rng.choice(("cp", "bp")), "order": order, "informal": rng.choice((0, 0, 3))}
+            "asn": rng.choice(("cp", "bp")), "order": order, "informal": rng.choice((0, 0, 3)), "warm": rng.random() < 0.25}
 
 
 def run_raire(case, rec, monitor):
@@ -55,6 +55,16 @@ def run_raire(case, rec, monitor):
     asn_func = cp_estimate if case["asn"] == "cp" else bp_estimate
     contest = Contest(cname, list(cands), winner, tot, order=list(case.get("order") or []))
     sink = io.StringIO()
+    if case.get("warm"):
+        # the same Contest object was used before, for a different export of the same size (candidate names rotated in
+        # every ranking): nothing of that run may survive into the next one
+        rot = dict(zip(cands, list(cands[1:]) + list(cands[:1])))
+        warm_cvrs = {bid: ({cname: {rot[c]: k for c, k in v[cname].items()}} if cname in v else v) for bid, v in cvrs.items()}
+        try:
+            compute_raire_assertions(contest, warm_cvrs, winner, asn_func, False, sink, 0)
+        except Exception:
+            pass
+        rec.count("contest_object_reused_after_other_cvrs")
     ok, res = rec.guard(monitor, compute_raire_assertions, contest, cvrs, winner, asn_func, False, sink, 0)
     if not ok:
         return None
